@@ -1,5 +1,5 @@
 (* C07 model driver: one history per line, tokens
-     E<p>=<val>:<i1>,<i2>,...   edit file p (0 = kernel source): rest-of-text number val, #include list
+     E<p>=<val>:<i1>,<i2>,...[^o|^f]   edit file p (0 = kernel source): rest-of-text number val, #include list
      D<p>                       delete file p
      B                          build (fresh process, shared cache directory)
    prints  R <b1>;<b2>;...  one item per build: C:<v0>,<mask> (compiled now) | L:<v0>,<mask> (cached binary
@@ -21,6 +21,8 @@ let parse_op (t : string) : op option =
   if t = "B" then Some Build
   else if String.length t >= 2 && t.[0] = 'D' then Some (Delete (nat_of_int (int_of_string (String.sub t 1 (String.length t - 1)))))
   else if String.length t >= 4 && t.[0] = 'E' then begin
+    (* "^o" / "^f": the harness gives the file an old / a future timestamp; contents only matter here *)
+    let t = match String.index_opt t '^' with Some i -> String.sub t 0 i | None -> t in
     let e = String.index t '=' and c = String.index t ':' in
     let p = int_of_string (String.sub t 1 (e - 1)) in
     let v = int_of_string (String.sub t (e + 1) (c - e - 1)) in
